@@ -7,6 +7,7 @@
 //   # comment
 //   reset                                  new execution: destroys all instances, emits the cfg event
 //   mode <i> script|hostile|none           decision provider for instance i (default script)
+//   mark lanes|replica|saveload|none       the following operations form a cross-instance scenario (instance 0 leads)
 //   @<i> <op> [a [b [p]]] [| <m>.<s>.<j>:<act>,<act> ; ...]
 //   rnd <seed> <nops> <scenario> [kinds-mask [act-percent]]
 // ops: ctor fill seed | copy src | dtor | enter | exit | update | react v | query v | to d | ito d | with d 0 p |
@@ -281,6 +282,11 @@ int main(int argc, char** argv) {
 		std::string w; ss >> w;
 		if (w == "reset") { destroyAll(); emitCfg(); started = true; for (ProviderMode& m : g_instMode) m = PM_SCRIPT; continue; }
 		if (!started) { emitCfg(); started = true; }
+		if (w == "mark") {		// cross-instance scenario marker (lanes | replica | saveload | none), see spec/CrossTrace.tla
+			std::string k; ss >> k;
+			g_rec.s("{\"e\":\"mark\",\"k\":\""); g_rec.s(k.c_str()); g_rec.s("\"}\n");
+			continue;
+		}
 		if (w == "mode") {
 			int i = 0; std::string m; ss >> i >> m;
 			if (i >= 0 && i < MAX_INST) g_instMode[i] = m == "hostile" ? PM_HOSTILE : m == "none" ? PM_NONE : PM_SCRIPT;
